@@ -236,7 +236,7 @@ def DEC(*names):
 
 PROPS = {
     "C01": {
-        "bridge": RENDER + TABLES + NODES + DEC("Cast", "Match", "Resolve", "Default", "Hooks", "Function", "Util", "Struct"),
+        "bridge": RENDER + TABLES + NODES + DEC("Cast", "Match", "Resolve", "Default", "Hooks", "Function", "Util", "Struct", "Types"),
         "extra_modules": ["Convergen.Props.C04", "Convergen.Props.C16"],
         "sweeps": [sweep_front("mixed", 160, 6000, cats=["body", "slice", "hook", "header", "errflow"], compile=True),
                    sweep_front("matching", 100, 3000, cats=["body", "slice"], compile=True),
@@ -370,7 +370,7 @@ PROPS = {
         "assumptions": ["semantics of the emitted Go fragment (GoSem) is validated by the run-time driver, not proved about Go"],
     },
     "C08": {
-        "bridge": RENDER + DEC("Function"),
+        "bridge": RENDER + DEC("Function", "Types"),
         "sweeps": [sweep_front("signatures", 140, 3000, cats=["header", "missing-func", "exit"]),
                    sweep_front("imports", 80, 2000, cats=["header", "missing-func", "exit"]),
                    # one function per method also for methods a converter interface inherits
@@ -459,7 +459,7 @@ PROPS = {
         "assumptions": [],
     },
     "C16": {
-        "bridge": RENDER + DEC("Cast", "Default"),
+        "bridge": RENDER + DEC("Cast", "Default", "Types"),
         "sweeps": [sweep_front("slices", 150, 4000, cats=["slice", "body"]), sweep_runtime(50, 1500)],
         "rule": FRONT_RULE % "slices",
         "explanation": "sliceToSlice decision = spec; no converting loop without :typecast; text of the three statements "
